@@ -159,7 +159,8 @@ func (r *Raft) onAppendEntriesRequest(req *appendReq, c *conn) (rpcResult, error
 	r.setLeader(req.src)
 
 	// reply false if log at req.prevLogIndex does not match
-	if req.prevLogIndex > r.snaps.index {
+	snapIndex, _ := r.snaps.latest()
+	if req.prevLogIndex > snapIndex {
 		if req.prevLogIndex > r.lastLogIndex {
 			return drain(prevEntryNotFound, nil)
 		}
@@ -213,7 +214,7 @@ func (r *Raft) onAppendEntriesRequest(req *appendReq, c *conn) (rpcResult, error
 		}
 		prevTerm := term
 		index, term = ne.index, ne.term
-		if ne.index <= r.snaps.index {
+		if ne.index <= snapIndex {
 			continue
 		}
 		if ne.index <= r.lastLogIndex {
@@ -287,7 +288,7 @@ func (r *Raft) onInstallSnapRequest(req *installSnapReq, c *conn) (rpcResult, er
 	r.setLeader(req.src)
 
 	// stale or duplicate request: we already have this snapshot or a newer one
-	if req.lastIndex <= r.snaps.index {
+	if snapIndex, _ := r.snaps.latest(); req.lastIndex <= snapIndex {
 		return drain(success, nil)
 	}
 
@@ -334,7 +335,7 @@ func (r *Raft) onInstallSnapRequest(req *installSnapReq, c *conn) (rpcResult, er
 		verifPoint("install.logCleared")
 		// restore fsm from this snapshot
 		r.fsm.ch <- fsmRestoreReq{r.fsmRestoredCh}
-		r.commitIndex = r.snaps.index
+		r.commitIndex, _ = r.snaps.latest()
 
 		// load snapshot config as cluster configuration
 		r.changeConfig(meta.config)
